@@ -97,6 +97,7 @@ func (d *Log) Info(message string, args ...any) {
 
 // Debugf prints a formatted message with debug color if debug mode is enabled
 func (d *Log) Debugf(message string, args ...any) {
+	verifYield(d, message)
 	if DEBUG && d.checkNamespace(d.Prefix()) {
 		d.Logger.Println(color.Debug.Sprintf(message, args...))
 	}
